@@ -143,6 +143,9 @@ func (st *c12State) postedEvents(p *c12Path, posts map[*types.Func]bool) []strin
 
 func (st *c12State) computeEMU() map[string]c12Cap {
 	c := st.c
+	if st.seen == nil {
+		st.seen = map[string]bool{}
+	}
 	caps := map[string]c12Cap{}
 	evCaps := st.eventCaps()
 	posts := st.postFuncs()
@@ -213,6 +216,9 @@ func (st *c12State) computeEMU() map[string]c12Cap {
 						continue
 					}
 					replyPaths++
+					if s.Kind == "CSI" && s.Final == "c" && s.Private == "" && s.Params == "" {
+						st.seen["reply to the primary device attributes query"] = true
+					}
 					certain := map[string]bool{}
 					for _, w := range p.Writes {
 						tmpl, syms := c12Template(w.S)
